@@ -197,3 +197,109 @@ Theorem C04_budget_zero_dispatches_nothing : forall F bld P N s,
   st_globals (snd (run F bld N P s)) = st_globals s /\ st_heap (snd (run F bld N P s)) = st_heap s.
 Proof. exact budget_zero_dispatches_nothing. Qed.
 Print Assumptions C04_budget_zero_dispatches_nothing.
+
+(* ------------------------------------------------------------------ the VM, second part (C04VmProofs2-7.v) *)
+From Cao Require Import C04VmProofs2 C04VmProofs3 C04VmProofs4 C04VmProofs5 C04VmProofs6 C04VmProofs7 C04VmWitness.
+
+(* == (and with it table key lookup) is total on the live values of a closed heap whose tables are ranked
+   ([heap_acyclic]: a rank function on table addresses, strictly decreasing from a table to the tables it
+   mentions as key or value, and below eq_fuel - 1 = 23: acyclic, and nested less deep than the model's == looks) *)
+Theorem C04_equality_total : forall F h,
+  heap_acyclic h -> heap_closed h ->
+  forall a b, val_ok h a -> val_ok h b -> exists r, veq0 F h a b = Some r.
+Proof. exact veq0_tot. Qed.
+Print Assumptions C04_equality_total.
+
+(* AppendTable's search for a free integer key never runs out of its fuel (pigeonhole: length + 1 probes) *)
+Theorem C04_append_probe_terminates : forall F h m i,
+  tappend_idx (veq0 F h) (S (length m)) m i <> Some None.
+Proof. exact tappend_idx_not_fuel. Qed.
+Print Assumptions C04_append_probe_terminates.
+
+(* run_no_abort, one step, every opcode except CallNative (4) and CallFunction (11) of a native function value:
+   under [step_pre2] = operands inside the code, call stack not empty, ValueStack invariant, every address on the
+   value stack / in an object / in a closure frame alive, the open-upvalue list a duplicate-free chain of open
+   upvalues, the heap acyclic, jump operands non-negative, ForEach's counter non-negative in Debug builds,
+   RegisterUpvalue's captured variable exists.  The restrictions of step_pre on comparisons of two objects and on
+   open upvalues at Return / CloseUpvalue are gone. *)
+Theorem C04_step_no_abort_no_native :
+  forall F bld P reenter ip0 s,
+    step_pre2 F bld P ip0 s -> (opcode_at P ip0 <= 46)%N -> opcode_at P ip0 <> 4%N ->
+    (opcode_at P ip0 = 11%N -> forall a h, top1 s = VObj a -> hget (st_heap s) a <> Some (ONative h)) ->
+    forall a s', step F bld P reenter ip0 s <> SStop a s'.
+Proof. exact step_no_abort_no_native. Qed.
+Print Assumptions C04_step_no_abort_no_native.
+
+(* The natives.  [ninv] = the structural invariant vm_inv + acyclic heap + no native function VALUE in the heap
+   names a native that calls back.  Every native of the menu and __to_array return a value or an error and
+   keep ninv; call1 / try1 / call0 / rb1 do so when the nested run does ([reenter_ok]).
+   NOT covered: the stdlib natives __min, __max, __sort ([covered_native]). *)
+Theorem C04_native_call_ok : forall F P reenter start,
+  code_ok P start -> reenter_ok P reenter start -> (0 < code_len P)%N ->
+  forall h s, ninv P start s ->
+    (forall n, find_native h all_natives = Some n -> covered_native n = true) ->
+    nres_ok P start s (call_native F P reenter h s).
+Proof. exact call_native_ok. Qed.
+Print Assumptions C04_native_call_ok.
+
+(* run_no_abort, one step, ALL 47 opcodes (natives except __min / __max / __sort), under [step_pre3] =
+   the structural invariant [vm_inv] (which implies the structural part of step_pre2), the instruction pointer at
+   an instruction start of a well-formed code ([code_ok]: the VM's reading of C10), and [side]. *)
+Theorem C04_step_no_abort_partial2 :
+  forall F bld P reenter start,
+    code_ok P start -> reenter_ok P reenter start ->
+    forall ip0 s, step_pre3 F bld P start ip0 s ->
+    forall a s', step F bld P reenter ip0 s <> SStop a s'.
+Proof. exact step_no_abort_all. Qed.
+Print Assumptions C04_step_no_abort_partial2.
+
+(* preservation: the state of every non-abort result satisfies vm_inv0 again and no object died; after SNext the
+   call stack is not empty and the next instruction pointer is an instruction start.  (heap_acyclic is part of
+   [side], not of vm_inv: SetProperty / AppendTable can build a cycle, A-37.) *)
+Theorem C04_step_preserves :
+  forall F bld P reenter start,
+    code_ok P start -> reenter_ok P reenter start ->
+    forall ip0 s, step_pre3 F bld P start ip0 s ->
+    res_ok P start s (step F bld P reenter ip0 s).
+Proof. exact step_preserves. Qed.
+Print Assumptions C04_step_preserves.
+
+(* the dispatch loop: no abort (and enough fuel) as long as every dispatched instruction meets [side] *)
+Theorem C04_loop_no_abort :
+  forall F bld P reenter start,
+    code_ok P start -> reenter_ok P reenter start ->
+    (forall ip s, rres_R paid (cr s) (reenter ip s)) ->
+    forall fuel ip s,
+      vm_inv P start s -> ipok P start ip -> sides_hold F bld P reenter ip s -> (st_rem s <= N.of_nat fuel)%N ->
+      match loop F bld P reenter fuel ip s with
+      | RStop _ _ => False
+      | ROk s' | RErr _ _ s' => vm_inv0 P start s' /\ length (st_heap s) <= length (st_heap s')
+      end.
+Proof. exact loop_no_abort. Qed.
+Print Assumptions C04_loop_no_abort.
+
+(* Vm::run from a new VM (or from the state a previous run left) *)
+Theorem C04_run_no_abort_partial : forall F bld P start budget s,
+  code_ok P start ->
+  reenter_ok P (run_at F bld P false (N.of_nat budget) 129) start ->
+  vm_inv0 P start s ->
+  (forall s1, push_frame s (mkFrame 0 0 0 None) = Some s1 ->
+     sides_hold F bld P (run_at F bld P false (N.of_nat budget) 129) 0 (set_rem s1 (N.of_nat budget))) ->
+  forall a, fst (run F bld budget P s) <> OAbort a.
+Proof. exact run_no_abort. Qed.
+Print Assumptions C04_run_no_abort_partial.
+
+Theorem C04_fresh_state_inv : forall P start, vm_inv0 P start fresh_state.
+Proof. exact fresh_inv0. Qed.
+Print Assumptions C04_fresh_state_inv.
+
+(* necessity of the acyclic heap (finding A-37): t = {}; t[1] = t; t == t *)
+Theorem C04_cyclic_table_aborts : forall F bld,
+  fst (run F bld 100 cyclic_prog fresh_state) = OAbort ACrash /\
+  st_heap (snd (run F bld 100 cyclic_prog fresh_state)) = cyclic_heap.
+Proof. exact cyclic_table_aborts. Qed.
+Print Assumptions C04_cyclic_table_aborts.
+
+Theorem C04_cyclic_heap_not_acyclic : ~ heap_acyclic cyclic_heap.
+Proof. exact cyclic_heap_not_acyclic. Qed.
+Print Assumptions C04_cyclic_heap_not_acyclic.
